@@ -53,10 +53,15 @@ structure Facts where
   sharedObjectWrites : List (String × String) -- (Class.method, attributes of self written) for singletons and spec classes
   argValFresh : Bool                      -- `arg_val`: `scope[MIN_MODE] = _ArgValuator().mode`
   bbreprDef : String                      -- right-hand side of `bbrepr = …`
+  bbreprGuard : List String               -- `_BBRepr.repr1`: its key and the statements touching `self._active`
   glomScope : List (String × String)      -- the dict literal of `glom()`'s `new_child`: key → how its value is built
   glomScopeRoot : String                  -- what `glom()` derives the scope from
   childScope : List (String × String)     -- the dict literal of `_glom`'s `new_child`
   registryEvalWrites : List (String × String) -- (method, attribute) written by the registry methods evaluation calls
+  handlerKeys : List String               -- bookkeeping keys `_glom`'s exception handler writes or tests
+  parentLinkKeys : List String            -- keys `_glom` writes into the calling scope's map (`pmap[K] = …`)
+  specGlomResets : List (String × String) -- `Spec.glom`: (key, how) reset AFTER merging the scope handed in
+  glomResets : List (String × String)     -- `glom()`: likewise
 
 def expectedFromText : List String :=
   ["if text not in cache", "if len(cache) > cls._MAX_CACHE", "return create()",
@@ -66,22 +71,43 @@ def expectedGetHandler : List String :=
   ["if cache_key not in self._type_cache", "raise UnregisteredTarget",
    "self._type_cache[cache_key] = ret", "return self._type_cache[cache_key]"]
 
+/-- the keys a re-entrant evaluation resets (`resets`) cover the per-call error bookkeeping:
+    every key the exception handler of `_glom` writes or tests and the parent link are dropped or
+    rebound, `CHILD_ERRORS` is rebound to a FRESH list (`[]`; popping it would let the lookup fall
+    through to an outer map, clearing it in place would empty the caller's list), and the position
+    list `Path` — extended in place by `scope[Path] += …` — is rebound to a copy -/
+def resetsCover (keys : List String) (resets : List (String × String)) : Bool :=
+  keys.all (fun k => resets.any (fun r => r.1 == k)) &&
+  resets.contains ("CHILD_ERRORS", "[]") &&
+  !resets.contains ("CHILD_ERRORS", "pop") &&
+  resets.contains ("NO_PYFRAME", "pop") &&
+  resets.any (fun r => r.1 == "Path" && (r.2 == "call:list(scope[Path])" || r.2 == "[]"))
+
+/-- the resets as the model takes them: the keys only -/
+def resetKeys (resets : List (String × String)) : List String := resets.map (·.1)
+
 def Facts.WF (f : Facts) : Bool :=
   f.maxCache ≥ 1 &&
   f.fromTextShape == expectedFromText &&
   f.getHandlerShape == expectedGetHandler &&
   f.sharedWrites == [("Path.from_text", "cls._CACHE[PATH_STAR][text]"), ("Path.from_text.create", "cls._STAR_WARNED")] &&
   f.mutableDefaults.isEmpty &&
-  f.sharedObjectWrites == [("TargetRegistry.get_handler", "_type_cache"),
+  f.sharedObjectWrites == [("_BBRepr.repr1", "_active"), ("TargetRegistry.get_handler", "_type_cache"),
     ("TargetRegistry._register_fuzzy_type", "_op_type_tree"),
     ("TargetRegistry.register", "_type_cache,_op_type_map"),
     ("TargetRegistry.register_op", "_op_type_map,_op_type_tree,_op_auto_map,_type_cache")] &&
   f.argValFresh && f.bbreprDef == "recursive_repr()(_BBRepr().repr)" &&
+  f.bbreprGuard == ["key = (id(x), get_ident())", "if key in self._active", "self._active.add(key)",
+    "self._active.discard(key)"] &&
   f.glomScope == [("Path", "kwargs.pop:[]"), ("Inspect", "kwargs.pop:None"), ("MODE", "name:AUTO"),
     ("MIN_MODE", "const:None"), ("CHILD_ERRORS", "[]"), ("'globals'", "call:ScopeVars({}, {})")] &&
   f.glomScopeRoot == "_DEFAULT_SCOPE.new_child" &&
   f.childScope == [("T", "name:target"), ("Spec", "name:spec"), ("UP", "name:parent"), ("CHILD_ERRORS", "[]"),
     ("MODE", "pmap[MODE]"), ("MIN_MODE", "pmap[MIN_MODE]")] &&
-  f.registryEvalWrites == [("get_handler", "_type_cache")]
+  f.registryEvalWrites == [("get_handler", "_type_cache")] &&
+  f.handlerKeys == ["CHILD_ERRORS", "CUR_ERROR", "NO_PYFRAME"] &&
+  f.parentLinkKeys == ["LAST_CHILD_SCOPE"] &&
+  resetsCover (f.handlerKeys ++ f.parentLinkKeys) f.specGlomResets &&
+  resetsCover (f.handlerKeys ++ f.parentLinkKeys) f.glomResets
 
 end Glom.C20
